@@ -4,6 +4,7 @@ import (
 	"encoding/json"
 	"fmt"
 	"math/rand"
+	"sort"
 	"strings"
 
 	"verif/internal/corpus"
@@ -34,7 +35,13 @@ func c14(c *ctx) {
 	for i := 0; i < n; i++ {
 		alpha := []rune("abc\né😀")
 		g := gram.Backtracky(r, alpha)
-		if i%2 == 0 {
+		var deep []string
+		if i < 2 {
+			// two parser types whose trees nest deeper than 64 levels: anything the printers share between instances
+			// and size by depth is met by the batch that prints to the shared standard output
+			g, deep = gram.Nesting(r)
+			sort.Slice(deep, func(a, b int) bool { return len(deep[a]) > len(deep[b]) })
+		} else if i%2 == 0 {
 			gram.Finish(g, &gram.Profile{EnterProbes: true})
 		}
 		// a third of the parser types is generated with -noast (inline actions reading the captured text)
@@ -49,6 +56,16 @@ func c14(c *ctx) {
 		cs.text = gram.PrintGrammar(g, cs.printOpts(pkg, nil))
 		cp.Add(&corpus.Job{Pkg: pkg, Text: cs.text, Opts: v.opts, NoAST: v.noast, RuleNames: ruleNames(g), HasActions: g.Count(gram.KAction) > 0})
 		ins := tractable(g, "R0", gram.Inputs(r, g, "R0", 6, alpha))
+		if len(deep) > 0 {
+			ins = tractable(g, "R0", deep[:min(4, len(deep))])
+			for _, in := range ins {
+				it := ref.New(g, in)
+				it.Limit = 400000
+				if ok, _ := it.Parse("R0"); ok {
+					c.run.Max("deepest_tree_printed_concurrently_levels", it.MaxDepth)
+				}
+			}
+		}
 		// one long accepted input (the matched prefix is longer than 64 runes) for the owners that break their own
 		// instance below: only a tree that reaches beyond what an empty text can be sliced to makes the printer panic
 		long := ""
